@@ -85,6 +85,37 @@ JSONLD = [
      [q(S, P, L("true", dt=XSD + "boolean")), q(S, Q, L("false", dt=XSD + "boolean")), q(S, R, L("1.5E0", dt=XSD + "double")), q(S, N, L("10", dt=XSD + "integer"))]),
 ]
 
+# ---- JSON-LD context mechanics: embedded, property-scoped and type-scoped contexts; the same local context text under different
+# enclosing contexts (prefix, @vocab, @language); @context null; term re-definition
+A_, B_ = "http://a.example/", "http://b.example/"
+S1, S2, O1, O2 = I(D + "s1"), I(D + "s2"), I(D + "o1"), I(D + "o2")
+
+
+def _twice(outer_a, outer_b, inner, pa, pb, key, va, vb):
+    return ('[{"@context": %s, "@id": "%ss1", "%s": {"@context": %s, "@id": "%so1", "%s": "%s"}}, {"@context": %s, "@id": "%ss2", "%s": {"@context": %s, "@id": "%so2", "%s": "%s"}}]'
+            % (outer_a, D, pa, inner, D, key, va, outer_b, D, pb, inner, D, key, vb))
+
+
+JSONLD += [
+    ("ctx:embedded-twice-prefix", _twice('{"ex": "%s"}' % A_, '{"ex": "%s"}' % B_, '{"q": "ex:q"}', "ex:p", "ex:p", "q", "v1", "v2"),
+     [q(S1, I(A_ + "p"), O1), q(O1, I(A_ + "q"), L("v1")), q(S2, I(B_ + "p"), O2), q(O2, I(B_ + "q"), L("v2"))]),
+    ("ctx:embedded-twice-vocab", _twice('{"@vocab": "%s"}' % A_, '{"@vocab": "%s"}' % B_, '{"lbl": {"@id": "label"}}', "child", "child", "lbl", "x", "y"),
+     [q(S1, I(A_ + "child"), O1), q(O1, I(A_ + "label"), L("x")), q(S2, I(B_ + "child"), O2), q(O2, I(B_ + "label"), L("y"))]),
+    ("ctx:embedded-twice-language", _twice('{"@language": "en", "e": "%s"}' % E, '{"@language": "de", "e": "%s"}' % E, '{"t": "e:t"}', "e:p", "e:p", "t", "hello", "hallo"),
+     [q(S1, P, O1), q(O1, I(E + "t"), L("hello", lang="en")), q(S2, P, O2), q(O2, I(E + "t"), L("hallo", lang="de"))]),
+    ("ctx:same-enclosing-twice", _twice('{"ex": "%s"}' % A_, '{"ex": "%s"}' % A_, '{"q": "ex:q"}', "ex:p", "ex:p", "q", "v1", "v2"),
+     [q(S1, I(A_ + "p"), O1), q(O1, I(A_ + "q"), L("v1")), q(S2, I(A_ + "p"), O2), q(O2, I(A_ + "q"), L("v2"))]),
+    ("ctx:property-scoped", '{"@context": {"e": "%s", "p": {"@id": "e:p", "@context": {"q": "e:inner"}}, "q": "e:outer"}, "@id": "%ss1", "q": "out", "p": {"@id": "%so1", "q": "in"}}' % (E, D, D),
+     [q(S1, I(E + "outer"), L("out")), q(S1, P, O1), q(O1, I(E + "inner"), L("in"))]),
+    ("ctx:type-scoped", '{"@context": {"e": "%s", "T": {"@id": "e:T", "@context": {"q": "e:forT"}}, "q": "e:plain"}, "@graph": [{"@id": "%ss1", "@type": "T", "q": "a"}, {"@id": "%so1", "q": "b"}]}' % (E, D, D),
+     [q(S1, TYPE, I(E + "T")), q(S1, I(E + "forT"), L("a")), q(O1, I(E + "plain"), L("b"))]),
+    ("ctx:null-reset", '{"@context": {"e": "%s", "p": "e:p"}, "@id": "%ss1", "p": {"@context": [null, {"p": "%sp"}], "@id": "%so1", "p": "v"}}' % (E, D, B_, D),
+     [q(S1, P, O1), q(O1, I(B_ + "p"), L("v"))]),
+    ("ctx:redefinition-in-array", '{"@context": [{"e": "%s", "p": "e:p"}, {"p": "e:q"}], "@id": "%ss1", "p": "v"}' % (E, D), [q(S1, Q, L("v"))]),
+    ("ctx:nested-inherits-then-overrides", '{"@context": {"e": "%s", "p": "e:p", "q": "e:q"}, "@id": "%ss1", "p": {"@context": {"q": "e:r"}, "@id": "%so1", "q": "in", "p": {"@id": "%so2", "q": "deeper"}}, "q": "out"}' % (E, D, D, D),
+     [q(S1, P, O1), q(O1, R, L("in")), q(O1, P, O2), q(O2, R, L("deeper")), q(S1, Q, L("out"))]),
+]
+
 
 def all_docs():
     out = []
